@@ -220,6 +220,77 @@ theorem ROUTE_TARGETS_DISTINCT (files : List Arg) (output : Out) (nobackup : Boo
       cases h
       exact inplaceLoop_nodup nobackup files []
 
+/-- the file-system jobs of the actions of a run: the file with identity `t` lives at path `3t`, its temporary sibling at
+`3t+1`, its backup at `3t+2` (names derived from the target's name, distinct for distinct files — the case where a backup name
+IS another argument is the recorded finding) -/
+def jobsOf (old : Nat → Content) (new : Nat → List Content) (acts : List Action) : List Job :=
+  acts.filterMap fun a => match a with
+    | .toFile _ t b => some { target := 3 * t, tmp := 3 * t + 1, orig := 3 * t + 2, backup := b, old := old t, chunks := new t }
+    | .toStdout _ => none
+
+theorem div3 (t : Nat) : (3 * t) / 3 = t ∧ (3 * t + 1) / 3 = t ∧ (3 * t + 2) / 3 = t := by omega
+
+theorem paths_nodup_of_targets : ∀ (old : Nat → Content) (new : Nat → List Content) (acts : List Action),
+    (acts.filterMap Action.target?).Nodup → ((jobsOf old new acts).flatMap Job.paths).Nodup ∧
+      ∀ q ∈ (jobsOf old new acts).flatMap Job.paths, ∃ t ∈ acts.filterMap Action.target?, q / 3 = t
+  | _, _, [], _ => by simp [jobsOf]
+  | old, new, .toStdout _ :: rest, h => by
+    have h' : (rest.filterMap Action.target?).Nodup := by
+      simpa [List.filterMap_cons, Action.target?] using h
+    have := paths_nodup_of_targets old new rest h'
+    simpa [jobsOf, List.filterMap_cons, Action.target?] using this
+  | old, new, .toFile src t b :: rest, h => by
+    simp only [List.filterMap_cons, Action.target?, List.nodup_cons] at h
+    obtain ⟨ih1, ih2⟩ := paths_nodup_of_targets old new rest h.2
+    have hj : jobsOf old new (.toFile src t b :: rest)
+        = { target := 3 * t, tmp := 3 * t + 1, orig := 3 * t + 2, backup := b, old := old t, chunks := new t } :: jobsOf old new rest := by
+      simp [jobsOf]
+    rw [hj]
+    simp only [List.flatMap_cons, Job.paths, List.filterMap_cons, Action.target?]
+    constructor
+    · rw [List.nodup_append]
+      refine ⟨by simp, ih1, ?_⟩
+      intro a ha b' hb hab
+      obtain ⟨t', ht', hq⟩ := ih2 b' hb
+      subst hab
+      have : a / 3 = t := by
+        simp only [List.mem_cons, List.not_mem_nil, or_false] at ha
+        rcases ha with rfl | rfl | rfl
+        · exact (div3 t).1
+        · exact (div3 t).2.1
+        · exact (div3 t).2.2
+      rw [this] at hq
+      exact h.1 (hq ▸ ht')
+    · intro q hq
+      rcases List.mem_append.1 hq with hq | hq
+      · refine ⟨t, List.mem_cons_self, ?_⟩
+        simp only [List.mem_cons, List.not_mem_nil, or_false] at hq
+        rcases hq with rfl | rfl | rfl
+        · exact (div3 t).1
+        · exact (div3 t).2.1
+        · exact (div3 t).2.2
+      · obtain ⟨t', ht', h3⟩ := ih2 q hq
+        exact ⟨t', List.mem_cons_of_mem _ ht', h3⟩
+
+/-- ROUTE_MULTI (the two models composed): however the arguments of an in-place run repeat files, a run stopped after any
+number of file-system operations — a crash, a failing operation, the write split arbitrarily — leaves every file it was
+going to write whole. -/
+theorem ROUTE_MULTI (files : List Arg) (output : Out) (nobackup : Bool) (acts : List Action)
+    (old : Nat → Content) (new : Nat → List Content) (s : State) (k : Nat)
+    (h : reformatFiles files output true nobackup = .ok acts)
+    (hs : ∀ t, s (3 * t) = some (old t)) :
+    ∀ j ∈ jobsOf old new acts, Whole (exec s ((runOps (jobsOf old new acts)).take k)) j := by
+  have hnd := (paths_nodup_of_targets old new acts (ROUTE_TARGETS_DISTINCT files output nobackup acts h)).1
+  refine MULTI (jobsOf old new acts) s k hnd ?_
+  intro j hj
+  obtain ⟨a, _, ha⟩ := List.mem_filterMap.1 hj
+  cases a with
+  | toStdout _ => simp at ha
+  | toFile src t b =>
+    simp only [Option.some.injEq] at ha
+    subst ha
+    exact hs t
+
 /-- the repaired regression: a file named twice is one job, not two (the second would move the formatted file
 over the backup of the original). -/
 example : reformatFiles [.file 0, .file 0] .none true false = .ok [.toFile (.file 0) 0 true] := by rfl
